@@ -36,6 +36,20 @@ def calls_resolving_to(ctx, func, target):
     return out
 
 
+def bound_args(call, callee):
+    """{parameter name: argument expression} for a call of `callee` (a model.Func), positional and keyword arguments alike;
+    a bound method call does not pass `self`.  None when the call uses * / ** arguments."""
+    if any(isinstance(a, ast.Starred) for a in call.args) or any(k.arg is None for k in call.keywords):
+        return None
+    params = [p for p in callee.params if not p.startswith('*')]
+    if params and params[0] in ('self', 'cls') and callee.cls and 'staticmethod' not in callee.decorators:
+        params = params[1:]
+    out = dict(zip(params, call.args))
+    for k in call.keywords:
+        out[k.arg] = k.value
+    return out
+
+
 def stmt(node):
     s = parent_stmt(node)
     if s is None:
